@@ -365,6 +365,7 @@ class Recorder:
         self.eng, self.kind, self.data = eng, kind, data
         self.shape = case_shape(kind, shape)
         self.calls = []
+        self.delegates, self.world = {}, None     # relation -> nested evaluation on another Guard (kind "nest")
         if self.shape == "async_def":
             self.check = self._acheck                      # a coroutine function (bound async method)
         elif self.shape == "decorated":
@@ -378,13 +379,60 @@ class Recorder:
         ctx = copy.deepcopy(context)
         d = self.data() if callable(self.data) else self.data
         resp = respond(self.kind, d, subject, relation, resource, ctx)
+        if relation in self.delegates:
+            resp = ["delegate", relation]          # answered by evaluating a request on another engine
         how = delivery(self.kind, d, subject, relation, resource, ctx, self.shape)
-        self.calls.append({"eng": self.eng, "dec": DEC.get(), "q": [subject, relation, resource, ctx], "resp": resp,
+        dec = DEC.get()
+        if dec is None and self.world is not None:
+            # evaluate_sync under a running loop moves the evaluation to a fresh thread: the caller's tag does not
+            # travel; roots run one after the other, so an untagged lookup belongs to the root in progress
+            dec = self.world.get("current_root")
+        self.calls.append({"eng": self.eng, "dec": dec, "q": [subject, relation, resource, ctx], "resp": resp,
                            "how": how, "ctx_is_dict": isinstance(context, dict)})
         return resp, how
 
-    @staticmethod
-    def _now(resp):
+    def _nested_begin(self, spec):
+        w = self.world
+        parent = DEC.get()
+        rec = {"id": len(w["records"]), "parent": parent if parent is not None else w.get("current_root"),
+               "engine": spec["engine"], "req": spec["req"],
+               "via": spec.get("via", "evaluate"), "decision": None}
+        w["records"].append(rec)
+        return rec, w["guards"][spec["engine"]], DEC.set(rec["id"])
+
+    def _nested_sync(self, spec):
+        """check() of this engine's checker evaluates a request on another Guard, from the worker thread"""
+        rec, g, tok = self._nested_begin(spec)
+        try:
+            if rec["via"] == "is_allowed":
+                rec["decision"] = {"allowed": g.is_allowed_sync(*req_objs(spec["req"]))}
+            else:
+                rec["decision"] = dec_dict(g.evaluate_sync(*req_objs(spec["req"])))
+        except Exception as e:  # noqa: BLE001
+            rec["decision"] = ["Raise", type(e).__name__]
+            raise RuntimeError("nested evaluation raised")
+        finally:
+            DEC.reset(tok)
+        return rec["decision"]["allowed"]
+
+    async def _nested_async(self, spec):
+        """... or awaits it on the captured loop, inside the awaited answer"""
+        rec, g, tok = self._nested_begin(spec)
+        try:
+            if rec["via"] == "is_allowed":
+                rec["decision"] = {"allowed": await g.is_allowed_async(*req_objs(spec["req"]))}
+            else:
+                rec["decision"] = dec_dict(await g.evaluate_async(*req_objs(spec["req"])))
+        except Exception as e:  # noqa: BLE001
+            rec["decision"] = ["Raise", type(e).__name__]
+            raise RuntimeError("nested evaluation raised")
+        finally:
+            DEC.reset(tok)
+        return rec["decision"]["allowed"]
+
+    def _now(self, resp):
+        if resp[0] == "delegate":
+            return self._nested_sync(self.delegates[resp[1]])
         if resp[0] == "ret":
             return copy.deepcopy(resp[1])
         if resp[0] == "badbool":
@@ -396,6 +444,8 @@ class Recorder:
         if resp[0] == "timeout":
             ev = asyncio.Event()
             await ev.wait()
+        if resp[0] == "delegate":
+            return await self._nested_async(self.delegates[resp[1]])
         return self._now(resp)
 
     async def _acheck(self, subject, relation, resource, *, context=None):
@@ -406,8 +456,17 @@ class Recorder:
         """an asyncio Future of the captured loop, resolved later from the loop itself (or never: time-out)"""
         fut = loop.create_future()
 
+        async def resolve():
+            try:
+                fut.set_result(await self._later(resp))
+            except Exception as e:  # noqa: BLE001
+                fut.set_exception(e)
+
         def fire():
             if fut.done() or resp[0] == "timeout":
+                return
+            if resp[0] == "delegate":
+                loop.create_task(resolve())
                 return
             try:
                 fut.set_result(self._now(resp))
@@ -457,10 +516,7 @@ class AsyncRecorder(Recorder):
 
     async def check(self, subject, relation, resource, *, context=None):  # type: ignore[override]
         resp, _how = self._note(subject, relation, resource, context)
-        await asyncio.sleep(0)
-        if resp[0] == "timeout":
-            await asyncio.Event().wait()
-        return self._now(resp)
+        return await self._later(resp)
 
 
 def make_checker(eng, kind, data, shape=None):
@@ -605,6 +661,49 @@ def run_conc_impl(c):
     return {"decisions": out, "stray": stray}
 
 
+def run_nest_impl(c):
+    """root evaluations on engine 0..; checkers answer some relations by evaluating a request on another Guard"""
+    world = {"records": [], "guards": [], "recs": []}
+    for i, e in enumerate(c["engines"]):
+        rec = make_checker(i, e.get("checker"), e.get("data") or {}, e.get("shape"))
+        if rec is not None:
+            rec.delegates, rec.world = dict(e.get("delegates") or {}), world
+        world["recs"].append(rec)
+        world["guards"].append(_guard(e["policy"], e.get("strict"), rec))
+    api = c.get("api", "async")
+
+    def begin(root):
+        r = {"id": len(world["records"]), "parent": None, "engine": root["engine"], "req": root["req"], "via": "evaluate",
+             "decision": None, "root": True}
+        world["records"].append(r)
+        world["current_root"] = r["id"]
+        DEC.set(r["id"])
+        return r, world["guards"][root["engine"]]
+
+    async def go():
+        for root in c["roots"]:
+            r, g = begin(root)
+            try:
+                if api == "sync_in_loop":
+                    r["decision"] = dec_dict(g.evaluate_sync(*req_objs(root["req"])))
+                else:
+                    r["decision"] = dec_dict(await g.evaluate_async(*req_objs(root["req"])))
+            except Exception as e:  # noqa: BLE001
+                r["decision"] = ["Raise", type(e).__name__]
+
+    if api == "sync":
+        for root in c["roots"]:
+            r, g = begin(root)
+            try:
+                r["decision"] = dec_dict(g.evaluate_sync(*req_objs(root["req"])))
+            except Exception as e:  # noqa: BLE001
+                r["decision"] = ["Raise", type(e).__name__]
+    else:
+        asyncio.run(go())
+    calls = [x for rec in world["recs"] if rec for x in rec.calls]
+    return {"records": world["records"], "calls": calls}
+
+
 def run_cond_impl(c):
     """rbacx.core.policy.eval_condition with the three context variables set by hand"""
     from rbacx.core import policy as pol
@@ -645,6 +744,8 @@ def run_impl_one(c):
         return run_conc_impl(c)
     if k == "cond":
         return run_cond_impl(c)
+    if k == "nest":
+        return run_nest_impl(c)
     return run_hash_impl(c)
 
 
@@ -700,10 +801,80 @@ def run_model_parallel(lines, workers=12):
     return [x for part in parts for x in part]
 
 
+def nest_level(c, i, seen=()):
+    e = c["engines"][i]
+    if not e.get("checker") or not e.get("delegates") or i in seen:
+        return 0
+    return 1 + max(nest_level(c, d["engine"], seen + (i,)) for d in e["delegates"].values())
+
+
+def nest_calls(i, rec):
+    """the lookups the implementation attributed to a decision record"""
+    return [x for x in i["calls"] if x["dec"] == rec["id"]]
+
+
+def model_nest(cases, impls):
+    """expected result of every (engine, request) that occurs in a nested case, each from a FRESH frame and with
+    its own engine's relationship data; a delegated relation is answered by the expected decision of the
+    engine it delegates to (computed first: leaves, then the engines that consult them)"""
+    out = [dict() for _ in cases]          # (engine, request key) -> model result
+    need = []
+    for ci, (c, i) in enumerate(zip(cases, impls)):
+        pairs = {}
+        for root in c["roots"]:
+            pairs[(root["engine"], case_key({"r": root["req"]}))] = root["req"]
+        for e in c["engines"]:
+            for d in (e.get("delegates") or {}).values():
+                pairs[(d["engine"], case_key({"r": d["req"]}))] = d["req"]
+        for (ei, rk), req in pairs.items():
+            need.append((nest_level(c, ei), ci, ei, rk, req))
+    for level in sorted({n[0] for n in need}):
+        batch = [n for n in need if n[0] == level]
+        lines, oods = [], []
+        for _lv, ci, ei, rk, req in batch:
+            c, i = cases[ci], impls[ci]
+            e = c["engines"][ei]
+            tbl = None
+            oods.append(False)
+            if e.get("checker"):
+                calls = [x for r in i["records"] if r["engine"] == ei and case_key({"r": r["req"]}) == rk for x in nest_calls(i, r)]
+                rows, seen = [], set()
+                try:
+                    qs = spec_queries(e["policy"], req)
+                except Exception:  # noqa: BLE001
+                    qs = []
+                for q in qs + [x["q"] for x in calls]:
+                    k = qkey(*q)
+                    if k in seen:
+                        continue
+                    seen.add(k)
+                    dl = (e.get("delegates") or {}).get(q[1])
+                    if dl is not None:
+                        inner = out[ci].get((dl["engine"], case_key({"r": dl["req"]})))
+                        md = inner["pure"] if inner else ["Ood"]
+                        ans = ["ret", bool(md.get("allowed"))] if isinstance(md, dict) else ["raise"]
+                        if md == ["Ood"]:
+                            oods[-1] = True
+                    else:
+                        ans = model_resp(respond(e["checker"], e.get("data") or {}, *q))
+                    rows.append([q[0], q[1], q[2], q[3], ans])
+                tbl = rows
+            lines.append(lib.model_call("relcond.eval", bool(e.get("strict")), e["policy"], req, None, tbl, dates_of(e["policy"], req)))
+        for (_lv, ci, ei, rk, req), o, ood in zip(batch, [lib.dec(x) for x in run_model_parallel(lines)], oods):
+            if ood:
+                o = dict(o, decision=["Ood"], pure=["Ood"])
+            out[ci][(ei, rk)] = o
+    return out
+
+
 def model_lines(cases, impls):
     lines, index = [], []
+    nest_ix = [ci for ci, c in enumerate(cases) if c.get("kind") == "nest"]
+    nest_models = dict(zip(nest_ix, model_nest([cases[ci] for ci in nest_ix], [impls[ci] for ci in nest_ix]))) if nest_ix else {}
     for ci, (c, i) in enumerate(zip(cases, impls)):
         k = c.get("kind", "seq")
+        if k == "nest":
+            continue
         if k == "seq":
             steps = []
             for step, r in zip(c["steps"], i["decisions"]):
@@ -750,6 +921,8 @@ def model_lines(cases, impls):
             per[ci] = o
         else:
             per[ci].append(o)
+    for ci, m in nest_models.items():
+        per[ci] = m
     return per
 
 
@@ -823,6 +996,9 @@ def judge_decision(chk, case, where, policy, req, kind, impl, model, others, rep
         return "violation"
     # (c) the decision against the relationship data
     nd, npure, nmemo = norm_dec(D), norm_mdec(mp_), norm_mdec(md)
+    if isinstance(D, dict) and set(D) == {"allowed"}:      # is_allowed_*: only the verdict is observable
+        npure = {"allowed": npure["allowed"]} if isinstance(npure, dict) else npure
+        nmemo = {"allowed": nmemo["allowed"]} if isinstance(nmemo, dict) else nmemo
     if nd != npure:
         in_class = f23_class(policy, req)
         if in_class and nd == nmemo:
@@ -920,6 +1096,39 @@ def check_one(chk, c, i, m, replay=False):
             v = judge_decision(chk, c, {"job": k, "engine": j["engine"]}, e["policy"], j["req"], e.get("checker"), r, mm, others, replay)
             verdicts.append(v)
             chk.count("conc:%s" % c.get("mode", "gather"))
+            if v in ("violation", "corr"):
+                break
+    elif kind == "nest":
+        recs = i["records"]
+        ids = {r["id"]: r for r in recs}
+        for x in i["calls"]:
+            r = ids.get(x["dec"])
+            if r is None:
+                chk.corr_break("a lookup could not be attributed to any decision (context lost)", c, impl=x["q"],
+                               theorems=["c13_fresh_per_decision"])
+                return ["corr"]
+            if r["engine"] != x["eng"]:
+                chk.violation("a lookup of a decision on one engine arrived at another engine's checker (nested evaluation)", c,
+                              impl={"decision": r["id"], "engine": r["engine"], "arrived_at": x["eng"], "call": x["q"]})
+                return ["violation"]
+        per = {r["id"]: nest_calls(i, r) for r in recs}
+        allkeys = {rid: set(qkey(*x["q"]) for x in cs) for rid, cs in per.items()}
+        # innermost first: a wrong inner decision explains a wrong outer one, not the other way round
+        for r in sorted(recs, key=lambda r: -r["id"]):
+            mm = m.get((r["engine"], case_key({"r": r["req"]})))
+            if mm is None or r["decision"] is None:
+                chk.corr_break("a nested evaluation the harness did not plan, or one that did not finish", c, impl=r,
+                               theorems=["c13_fresh_per_decision"])
+                return ["corr"]
+            e = c["engines"][r["engine"]]
+            others = set().union(*([s for rid, s in allkeys.items() if rid != r["id"]] or [set()]))
+            v = judge_decision(chk, c, {"decision": r["id"], "engine": r["engine"], "nested_in": r["parent"], "via": r["via"],
+                                        "checker": e.get("checker") or "absent"},
+                               e["policy"], r["req"], e.get("checker"), {"decision": r["decision"], "calls": per[r["id"]]}, mm, others, replay)
+            verdicts.append(v)
+            chk.count("nest:%s:%s" % ("root" if r.get("root") else "inner", e.get("checker") or "absent"))
+            for x in per[r["id"]]:
+                chk.count("resp:" + x["resp"][0] + "/" + x["how"])
             if v in ("violation", "corr"):
                 break
     elif kind == "cond":
@@ -1055,6 +1264,9 @@ def _check_cases(chk, cases, replay=False, search=True):
         chk.count("fam:" + c.get("fam", "?"))
         vs = check_one(chk, c, i, m, replay)
         nontriv = any(r.get("calls") for r in i.get("decisions", [])) or bool(i.get("calls")) or c.get("kind") == "hash"
+        if c.get("kind") == "nest":
+            chk.traces += len(i["records"])
+            nontriv = len(i["records"]) > len(c["roots"])
         chk.mark(case_key(c), bool(nontriv))
         if c.get("kind", "seq") in ("seq", "conc"):
             chk.traces += len(i["decisions"])
@@ -1084,6 +1296,23 @@ def _check_cases(chk, cases, replay=False, search=True):
             if da != ds:
                 chk.violation("a synchronous and an asynchronous checker (%s) with the same relationship data give different "
                               "decisions or lookups (c13_sync_async_same)" % c["shape"], c, impl={"sync": ds, "async": da})
+    ntw = [c for c in cases if c.get("kind") == "nest" and (replay or c.get("twin"))]
+    if ntw:
+        def all_plain(c):
+            t = copy.deepcopy(c)
+            for e in t["engines"]:
+                if e.get("checker"):
+                    e["checker"], e["shape"] = base_kind(e["checker"]), "plain"
+            return t
+
+        def flat(i):
+            return [(r["engine"], norm_dec(r["decision"]), [x["q"] for x in nest_calls(i, r)]) for r in i["records"]]
+
+        for c, a, s in zip(ntw, run_impl(ntw), run_impl([all_plain(c) for c in ntw])):
+            chk.count("twin:nest")
+            if flat(a) != flat(s):
+                chk.violation("nested evaluations: asynchronous checkers and plain synchronous ones with the same relationship data "
+                              "give different decisions or lookups (c13_sync_async_same)", c, impl={"sync": flat(s), "async": flat(a)})
     # targeted search around correspondence breaks: vary the relationship data until the property itself fails
     if search and bad_cases and not chk.violations and not replay:
         vs = []
@@ -1373,6 +1602,45 @@ def slow_cases(chk, n):
     return out
 
 
+def nest_cases(chk):
+    """a relationship checker whose check() evaluates a request on another Guard (with its own checker, a raising
+    one, or none), one and two levels deep; the inner policy tests the same triple-and-context the outer decision
+    has memoised, the same triple under another context, or other relations"""
+    quick = chk.tier == "quick"
+    out = []
+    a = {"rel": "viewer"}
+    dl = {"rel": "shareable"}                       # answered by the inner engine's decision
+    outer = {"and_ad": {"and": [a, dl]}, "and_da_a": {"and": [dl, a, {"rel": "editor"}]}, "or_not": {"or": [{"not": a}, dl, {"rel": "owner"}]}}
+    inner = {"same": a, "other_ctx": {"or": [node("viewer", ctx={"ip": "1.2.3.4"}), {"rel": "editor"}]},
+             "and_more": {"and": [a, {"not": {"rel": "owner"}}]}}
+    ctx = {"_rebac": {"ip": "10.0.0.1"}}
+    req, req2 = mkreq(ctx=ctx), mkreq(sid="u2", ctx=ctx)
+    inner_checkers = [(None, {}), ("raising", {}), ("sync", {"salt": 5, "neg": True}), ("sync", {"mode": "all"})]
+    n = 0
+    for shape, (kin, din), iname, oname, via in itertools.product(SHAPES + ["mixed"], inner_checkers, inner, outer, ["evaluate", "is_allowed"]):
+        n += 1
+        depth = 1 + n % 2
+        dataA = {"mode": "all"} if n % 3 else {"salt": n % 7}
+        api = ["async", "sync", "sync_in_loop"][n % 3]
+        engs = [{"policy": single(copy.deepcopy(outer[oname]), algo="permit-overrides"), "strict": False, "checker": ["sync", "values"][n % 2],
+                 "shape": shape, "data": dataA, "delegates": {"shareable": {"engine": 1, "req": req if n % 5 else req2, "via": via}}}]
+        last = {"policy": single(copy.deepcopy(inner[iname])), "strict": False, "checker": kin, "data": din}
+        if kin:
+            last["shape"] = SHAPES[n % len(SHAPES)]
+        if depth == 1:
+            engs.append(last)
+        else:
+            engs.append({"policy": single({"and": [a, {"rel": "orgok"}]}), "strict": False, "checker": "sync", "data": {"mode": "all"},
+                         "shape": SHAPES[(n // 2) % len(SHAPES)], "delegates": {"orgok": {"engine": 2, "req": req, "via": via}}})
+            engs.append(last)
+        out.append({"fam": "nest:%d:%s" % (depth, shape), "kind": "nest", "api": api, "engines": engs,
+                    "roots": [{"engine": 0, "req": req}, {"engine": 0, "req": req2}], "twin": n % 4 == 0})
+    if quick:
+        # every shape, every inner checker and every combination that puts the outer memo entry under the inner rel stay
+        out = [c for k, c in enumerate(out) if c["engines"][-1]["checker"] is None or k % 2 == chk.seed % 2]
+    return out
+
+
 def cond_cases(chk):
     out = []
     a, b = node("viewer", short=True), node("editor", subject="group:g1", ctx={"ip": "1.2.3.4"})
@@ -1432,6 +1700,7 @@ def run(chk):
     cases += enumerated(chk)
     cases += conc_cases(chk, 150 if quick else 1500)
     cases += slow_cases(chk, 10 if quick else 150)
+    cases += nest_cases(chk)
     cases += cond_cases(chk)
     cases += hash_cases(chk)
     chk.exhaustive = True
